@@ -3,7 +3,6 @@ package harness
 import (
 	"fmt"
 	"testing"
-	"testing/synctest"
 	"time"
 
 	"github.com/lightninglabs/lightning-node-connect/gbn"
@@ -49,7 +48,7 @@ func TestGenC20(t *testing.T) {
 		pc := pcts[rr.intn(len(pcts))]
 		o.line("BEGIN c%d static=%d resend=%d mult=%d freq=%d hs=%d pnum=%d pden=%d", h, b2i(static), int64(resend), mult, freq, int64(hs), pc.num, pc.den)
 		nops := rr.pick([]int{2, 10, 40, 150, 400})
-		synctest.Test(t, func(t *testing.T) {
+		pan := bubble(t, func(t *testing.T) {
 			opts := []gbn.TimeoutOptions{gbn.WithResendMultiplier(mult), gbn.WithTimeoutUpdateFrequency(freq),
 				gbn.WithHandshakeTimeout(hs), gbn.WithBoostPercent(pc.f)}
 			if static {
@@ -87,13 +86,16 @@ func TestGenC20(t *testing.T) {
 					k := kinds[rr.pick([]int{0, 1, 3, 3, 3, 3, 2, 4, 5})]
 					seq := uint8(rr.pick([]int{0, 1, 2, 3, 3, 254}))
 					var sample time.Duration = -1
+					answersFreshPacket := false // the response matches a packet that was sent once and not yet answered
 					switch {
 					case (k == "syn" || k == "synack") && !synAt.IsZero():
 						sample = time.Since(synAt)
 						synAt = time.Time{}
+						answersFreshPacket = true
 					case k == "ack":
 						if t0, ok := dataAt[seq]; ok {
 							delete(dataAt, seq)
+							answersFreshPacket = true
 							if freq == 1 {
 								sample = time.Since(t0)
 							}
@@ -101,7 +103,8 @@ func TestGenC20(t *testing.T) {
 					}
 					m.Received(mkMsg(k, seq))
 					desc = fmt.Sprintf("R %s %d", k, seq)
-					mayChange = k == "syn" || k == "synack" || k == "ack"
+					// only a response to a packet that was not retransmitted may be used as a round-trip sample
+					mayChange = answersFreshPacket
 					if sample >= 0 && !static && mult <= 5 {
 						want := time.Duration(mult) * sample
 						if want < time.Second {
@@ -130,13 +133,16 @@ func TestGenC20(t *testing.T) {
 					q.check(rt >= time.Second, "c20:below-floor", func() string {
 						return fmt.Sprintf("history c%d op %d `%s`: adaptive resend timeout %v < 1 s (mult=%d)", h, i, desc, rt, mult)
 					})
-					q.check(rt == prevRT || mayChange, "c20:changed-without-sample-or-resend", func() string {
+					q.check(rt == prevRT || mayChange, "c20:changed-without-fresh-sample-or-resend", func() string {
 						return fmt.Sprintf("history c%d op %d `%s`: resend timeout %v -> %v", h, i, desc, prevRT, rt)
 					})
 				}
 				prevRT = rt
 			}
 		})
+		if pan != "" {
+			q.fail("c20:panic", fmt.Sprintf("history c%d: %s", h, truncate(pan, 300)))
+		}
 		o.line("END c%d", h)
 		q.stat("histories", 1)
 		q.stat("ops", nops)
